@@ -273,8 +273,25 @@ Definition observed_of (c : ccfg) (r : round) (sent : json) : umap :=
           (uinit (ch_api_version kc) (ch_kind kc) m)) (kids c) []
   end.
 
+(* every delete of a ControllerRevision is conditioned on the UID of the revision that was observed
+   (the lister's), so a same-named object created later is never deleted *)
+Definition C02_revision_delete (r : round) : option string :=
+  first_some (fun e =>
+    match is_api e with
+    | Some q =>
+        if String.eqb (q_res q) rev_res && verb_eqb (q_verb q) VDelete then
+          match find (fun o => String.eqb (get_name o) (q_name q) && String.eqb (get_ns o) (q_ns q))
+                     (cached (r_cache r) rev_res) with
+          | Some o => if String.eqb (q_uid_pre q) (get_uid o) then None
+                      else Some "revision-delete-precondition-is-not-the-observed-uid"
+          | None => Some "revision-delete-of-an-unobserved-object"
+          end
+        else None
+    | None => None
+    end) (r_events r).
+
 Definition C02_check (c : ccase) : verdict :=
-  match first_round_fail (fun r => C02_round (c_cfg c) (r_cache r) (r_events r)) (c_rounds c) 0 with
+  match first_round_fail (fun r => orelse (C02_round (c_cfg c) (r_cache r) (r_events r)) (C02_revision_delete r)) (c_rounds c) 0 with
   | Some w => PROPFAIL w
   | None => if ssa (c_cfg c) then OK   (* the server-side-apply memo is process state outside the model *)
             else corr_check proj_writes false c
@@ -284,8 +301,29 @@ Definition C03_check := check_with (fun c r =>
   orelse (C03_round c (r_cache r) (r_events r))
          (with_parent (fun p => C03_namespace_default c p (r_events r)) r)) proj_hooks false.
 
+(* the claiming rules hold for ControllerRevisions as for children: an orphaned revision is adopted only
+   after a fresh, uncached read showed the parent alive with the same UID; a parent being deleted adopts nothing *)
+Definition C04_revision_adoption (c : ccfg) (parent : json) (evs : list ev) : option string :=
+  let puid := get_uid parent in
+  before_each (fun seen e =>
+    match is_api e with
+    | Some q =>
+        if String.eqb (q_res q) rev_res && verb_eqb (q_verb q) VUpdate && accepted e &&
+           is_orphan (e_pre e) && controlled_by (e_post e) puid
+        then
+          if Nat.ltb 1 (controller_count (e_post e)) then Some "two-controller-references" else
+          if is_deleting parent then Some "deleting-parent-adopted-revision" else
+          if negb (existsb (fun e' => match is_api e', e_ans e' with
+                                      | Some q', AObj fresh => targets_parent c parent q' && verb_eqb (q_verb q') VGet &&
+                                                               String.eqb (get_uid fresh) puid && negb (is_deleting fresh)
+                                      | _, _ => false end) seen)
+          then Some "revision-adopted-without-live-parent-recheck" else None
+        else None
+    | None => None
+    end) [] evs.
+
 Definition C04_check := check_with (fun c r =>
-  orelse (with_parent (fun p => C04_round c (r_cache r) p (r_events r)) r)
+  orelse (with_parent (fun p => orelse (C04_round c (r_cache r) p (r_events r)) (C04_revision_adoption c p (r_events r))) r)
          (C04_label_invariant c (r_events r))) proj_claims false.
 
 (* the desired children of the round as child management receives them
@@ -338,7 +376,8 @@ Definition C10_check := check_with (fun c r =>
                           (orelse (C10_leftover c p (r_events r)) (C10_handoff c (r_events r)))) r) proj_finalizer false.
 
 Definition C11_check := check_with (fun c r =>
-  with_parent (fun p => orelse (C11_round c p (r_events r) (r_result r)) (C11_attempted c p (r_events r))) r) proj_parent true.
+  with_parent (fun p => orelse (C11_round c p (r_events r) (r_result r))
+                          (orelse (C11_written_when_different c p (r_events r) (r_result r)) (C11_attempted c p (r_events r)))) r) proj_parent true.
 
 (* C13: no answer makes the worker panic; a rejected answer causes no child write *)
 Definition C13_round (c : ccfg) (r : round) : option string :=
@@ -704,8 +743,55 @@ Definition C09_child_follows_its_revision (c : ccfg) (r : round) : option string
         end) (after_hook (r_events r))
   end.
 
+(* each live revision's hook call is shown the latest parent with exactly the revisioned field paths
+   replaced by the revision's values: fields outside the paths take effect for all children at once *)
+Definition C07_views (c : ccfg) (r : round) : option string :=
+  if negb (any_rolling c) then None else
+  match latest_sent c r with
+  | None => None
+  | Some sent =>
+      if is_deleting sent && negb (should_finalize c sent) then None else
+      let hooks := hook_events (r_events r) in
+      (* judged only when every hook call was answered (an error aborts the sync) and one call per revision was made *)
+      if negb (forallb (fun e => match e_ans e with AHook _ => true | _ => false end) hooks) then None else
+      let before := revs_before c r sent in
+      if negb (Nat.eqb (List.length hooks) (List.length before + (if existsb (is_latest_rev c sent) before then 0 else 1))) then None else
+      if forallb (fun x => match answer_for c sent x (r_events r) with Some _ => true | None => false end) before
+      then None else Some "hook-not-shown-the-revisions-view-of-the-parent"
+  end.
+
+(* when this sync leaves every desired rolling child with the latest revision, and no other revision, it says so *)
+Definition C07_complete (c : ccfg) (r : round) : option string :=
+  if negb (any_rolling c) then None else
+  match latest_sent c r, k_parent (r_cache r) with
+  | Some sent, Some parent =>
+      if is_deleting sent && negb (should_finalize c sent) then None else
+      let after := revs_after c r sent in
+      match find (is_latest_rev c sent) after, status_write_cond c parent (r_events r) with
+      | Some lat, Some cond =>
+          match answer_for c sent lat (r_events r) with
+          | None => None
+          | Some lresp =>
+              let pns := get_ns sent in
+              let order := flat_map (fun ch => match ch with
+                               | Some o => let g := group_of (get_api_version o) in
+                                           if is_rolling c g (get_kind o) then [(g, get_kind o, relative_name pns o)] else []
+                               | None => [] end) (hr_children lresp) in
+              if forallb (fun k => ck_mem k (names_of c lat)) order &&
+                 Nat.eqb (List.length after) 1 &&
+                 Nat.eqb (List.length (revs_before c r sent)) 1 &&
+                 existsb (is_latest_rev c sent) (revs_before c r sent) &&
+                 negb (String.eqb (cond_field cond "reason") "OnLatestRevision")
+              then Some "rollout-complete-but-not-reported-as-complete" else None
+          end
+      | _, _ => None
+      end
+  | _, _ => None
+  end.
+
 Definition C07_check := check_with (fun c r =>
-  orelse (C07_round c r) (orelse (C07_condition c r) (C08_no_wait_on_healthy c r))) proj_all true.
+  orelse (C07_round c r) (orelse (C07_condition c r) (orelse (C08_no_wait_on_healthy c r)
+         (orelse (C07_views c r) (C07_complete c r))))) proj_all true.
 (* after any crash cut or revision-write fault the rollout still ends where an uninterrupted one does *)
 Definition C09_check (c : ccase) : verdict :=
   match C08_final c with
@@ -775,7 +861,8 @@ Definition C01_case (c : ccase) : option string :=
   if existsb (fun r => negb (Nat.eqb (round_child_requests cfg r) 0)) tail then Some "child-requests-never-stop" else
   if existsb (fun r => negb (Nat.eqb (round_effective_writes r) 0)) tail then Some "store-still-changing" else
   (* owned children = desired children; desired fields in place where the strategy permits updates *)
-  match rev (c_rounds c) with
+  (* the last round in which the hook spoke (a parent the controller no longer cares about is not synced) *)
+  match filter (fun r => match round_desired cfg (r_events r) with Some _ => true | None => false end) (rev (c_rounds c)) with
   | [] => None
   | lastr :: _ =>
       match round_desired cfg (r_events lastr), k_parent (r_cache lastr) with
